@@ -24,7 +24,7 @@ struct Scenario
 {
 	std::unique_ptr<World> w; std::unique_ptr<sim::simulation> sim; std::vector<std::unique_ptr<asio::io_context>> nodes;
 	std::vector<std::unique_ptr<Rec>> recs; std::vector<std::string> fails; std::vector<Action> actions;
-	bool throw_next = false; int thrown = 0; bool dead[16] = {};
+	bool throw_next = false; int thrown = 0; bool dead[16] = {}; bool obj_touched[16] = {}; // objects some intervention was applied to
 	// bystander
 	std::unique_ptr<ip::tcp::socket> bs_c, bs_s; std::unique_ptr<ip::tcp::acceptor> bs_a; std::unique_ptr<ip::udp::socket> bu_a, bu_b;
 	std::string bs_got; int64_t bs_want = 0; int bu_got = 0; std::vector<char> bs_buf, bu_buf; int64_t bs_sent = 0; bool with_bystander = false; std::vector<char> bs_wbuf;
@@ -98,7 +98,7 @@ struct Scenario
 	{
 		for (auto& r : recs) if (r->obj == obj && !r->hit) { r->hit = true; r->t_hit = now_ns(); r->was_outstanding_at_hit = r->st->invoked == 0; }
 	}
-	void add(std::string const& nm, int obj, std::function<void()> f) { bool is_move = nm.find("move-construct") != std::string::npos; actions.push_back(Action{ nm, obj, [this, obj, f, is_move]() { Frame fr(this); if (!is_move) hit(obj); VF_API(f()); } }); }
+	void add(std::string const& nm, int obj, std::function<void()> f) { bool is_move = nm.find("move-construct") != std::string::npos; actions.push_back(Action{ nm, obj, [this, obj, f, is_move]() { Frame fr(this); if (obj >= 0 && obj < 16) obj_touched[obj] = true; if (!is_move) hit(obj); VF_API(f()); } }); }
 };
 
 // ---------------------------------------------------------------------------------------------
@@ -138,9 +138,13 @@ struct ConnectAccept : Scenario
 	std::unique_ptr<ip::tcp::socket> cli, peer, got; std::unique_ptr<ip::tcp::acceptor> acc; std::unique_ptr<asio::high_resolution_timer> late;
 	ConnectAccept(int o, int w_, int e = 0) : overload(o), when(w_), early(e) { nm = fmt("connect-accept(overload %d, %s%s)", o, w_ == 0 ? "accept first" : w_ == 1 ? "no accept" : "accept after the SYN", e == 1 ? ", read+write started during the handshake" : e == 2 ? ", wait-for-read+write started during the handshake" : ""); }
 	const char* name() const override { return nm.c_str(); }
+	bool loop = false; // a server-style accept loop: every completed accept posts the next one (into a socket of its own)
+	std::vector<std::unique_ptr<ip::tcp::socket>> loop_peers;
 	void post_accept(const char* label, int ov = -1)
 	{
 		Rec* r = rec(label, 1); if (ov < 0) ov = overload;
+		if (loop) { loop_peers.emplace_back(new ip::tcp::socket(*nodes[1])); ip::tcp::socket* p = loop_peers.back().get();
+			acc->async_accept(*p, h_ec(r, [this](error_code const& ec) { if (!ec && !dead[1] && acc && acc->is_open()) post_accept("A.accept(next)"); })); return; }
 		if (ov == 0) acc->async_accept(*peer, h_ec(r));
 		else if (ov == 1) { // the endpoint variable lives exactly as long as the operation: it is part of the handler's state
 			auto pe = std::make_shared<ip::tcp::endpoint>(); acc->async_accept(*peer, *pe, h_ec(r, [pe](error_code const&) {})); }
@@ -168,7 +172,7 @@ struct ConnectAccept : Scenario
 		if (when != 1) for (int k = 0; k < 3; ++k) add(fmt("A.async_accept(supersede, overload %d)", k), 1, [this, k]() { if (acc && acc->is_open()) post_accept("A.accept(superseding)", k); });
 		if (when != 1) for (int k = 0; k < 3; ++k) add(fmt("A.cancel, then async_accept(overload %d)", k), 1, [this, k]() { if (acc && acc->is_open()) { acc->cancel(); post_accept("A.accept(after cancel)", k); } });
 	}
-	void destroy_objects() override { late.reset(); got.reset(); cli.reset(); acc.reset(); peer.reset(); }
+	void destroy_objects() override { late.reset(); got.reset(); cli.reset(); acc.reset(); peer.reset(); loop_peers.clear(); }
 };
 
 struct ConnectRefused : Scenario
@@ -260,6 +264,9 @@ struct Established : Scenario
 			std::unique_ptr<ip::tcp::socket> n2(new ip::tcp::socket(std::move(*srv))); srv = std::move(n2); });
 		add("C.move-construct, destroy source", 0, [this]() { if (!cli || !cli->is_open() || cli->m_recv_handler || cli->m_wait_recv_handler || cli->m_send_handler || cli->m_connect_handler) return;
 			std::unique_ptr<ip::tcp::socket> n2(new ip::tcp::socket(std::move(*cli))); cli = std::move(n2); });
+		// ... and then the next user handler throws: run() walks every registered socket on its way out
+		add("C.move-construct, destroy source, then the next handler throws", 0, [this]() { if (!cli || !cli->is_open() || cli->m_recv_handler || cli->m_wait_recv_handler || cli->m_send_handler || cli->m_connect_handler) return;
+			std::unique_ptr<ip::tcp::socket> n2(new ip::tcp::socket(std::move(*cli))); cli = std::move(n2); throw_next = true; });
 	}
 	void destroy_objects() override { late.reset(); cli.reset(); srv.reset(); acc.reset(); }
 };
@@ -342,6 +349,7 @@ std::vector<std::function<std::unique_ptr<Scenario>()>> scenario_table()
 	for (int k = 0; k < 4; ++k) t.push_back([k]() { return std::unique_ptr<Scenario>(new TimerWait(k)); });
 	for (int o = 0; o < 3; ++o) for (int wn = 0; wn < 3; ++wn) t.push_back([o, wn]() { return std::unique_ptr<Scenario>(new ConnectAccept(o, wn)); });
 	for (int e = 1; e <= 2; ++e) for (int wn = 0; wn < 2; ++wn) t.push_back([e, wn]() { return std::unique_ptr<Scenario>(new ConnectAccept(e == 1 ? 0 : 2, wn, e)); });
+	t.push_back([]() { std::unique_ptr<ConnectAccept> c(new ConnectAccept(0, 0)); c->loop = true; c->nm = "connect-accept(server-style accept loop)"; return std::unique_ptr<Scenario>(std::move(c)); });
 	t.push_back([]() { return std::unique_ptr<Scenario>(new ConnectRefused); });
 	for (int k = 0; k < 8; ++k) t.push_back([k]() { return std::unique_ptr<Scenario>(new Established(k)); });
 	for (int k = 0; k < 6; ++k) t.push_back([k]() { return std::unique_ptr<Scenario>(new UdpOps(k)); });
@@ -389,6 +397,12 @@ RunResult execute(std::function<std::unique_ptr<Scenario>()> const& mk, std::vec
 		std::string comp; for (auto& i : r.inv) comp += fmt("%s@%lld ", i.second.c_str(), (long long)i.first);
 		R.trace += r.name + ":" + (comp.empty() ? (h.live > 0 ? "pending " : "DISCARDED ") : comp) + "; ";
 		R.completions[r.name] = r.inv;
+		// operation_aborted is only ever the answer to something done to the object itself
+		if (base && r.obj >= 0 && r.obj < 16 && !S->obj_touched[r.obj]) {
+			auto it = base->completions.find(r.name);
+			bool base_aborted = false; if (it != base->completions.end()) for (auto& i : it->second) if (i.second.compare(0, 7, "aborted") == 0) base_aborted = true;
+			if (it != base->completions.end() && !base_aborted) for (auto& i : r.inv) if (i.second.compare(0, 7, "aborted") == 0) { R.fails.push_back(fmt("spurious_abort: %s completed with operation_aborted at %lld although no intervention concerned its object (undisturbed, it does not)", r.name.c_str(), (long long)i.first)); break; }
+		}
 		if (!want04) continue;
 		if (h.inline_calls) R.fails.push_back("inline: the handler of " + r.name + " was invoked from inside an initiating call");
 		if (h.invoked > 1) R.fails.push_back(fmt("once: the handler of %s was invoked %d times (%s)", r.name.c_str(), h.invoked, comp.c_str()));
@@ -424,8 +438,8 @@ struct IvEngine : Engine
 		auto clause_of = [](std::string const& x) { return x.substr(0, x.find(':')); };
 		for (auto& f : r.fails) {
 			std::string cl = clause_of(f);
-			bool is04 = cl == "inline" || cl == "once" || cl == "discarded" || cl == "not_aborted" || cl == "abort_time" || cl == "hook_equivalence";
-			bool is12 = cl == "bystander" || cl == "exception" || cl == "livelock" || cl == "hook_equivalence";
+			bool is04 = cl == "inline" || cl == "once" || cl == "discarded" || cl == "not_aborted" || cl == "abort_time" || cl == "hook_equivalence" || cl == "spurious_abort";
+			bool is12 = cl == "bystander" || cl == "exception" || cl == "livelock" || cl == "hook_equivalence" || cl == "spurious_abort";
 			if ((is04 && want04) || (is12 && want12)) { Case c2 = c; c2.set("scenario", scn); add_violation(ctx, cl, c2, scn + ": " + f + " | " + r.trace.substr(0, 900), cl + "/" + scn + "/" + c.str("a1name")); }
 		}
 	}
@@ -504,7 +518,7 @@ struct IvEngine : Engine
 		std::fprintf(stdout, "with intervention(s):\n  %s\n", r.trace.c_str());
 		int n = 0;
 		for (auto& f : r.fails) { std::string cl = f.substr(0, f.find(':'));
-			bool is04 = cl == "inline" || cl == "once" || cl == "discarded" || cl == "not_aborted" || cl == "abort_time"; bool is12 = cl == "bystander" || cl == "exception" || cl == "livelock";
+			bool is04 = cl == "inline" || cl == "once" || cl == "discarded" || cl == "not_aborted" || cl == "abort_time" || cl == "spurious_abort"; bool is12 = cl == "bystander" || cl == "exception" || cl == "livelock" || cl == "spurious_abort";
 			if (iv.size() > 1 && (cl == "not_aborted" || cl == "abort_time")) continue;
 			if ((is04 && want04) || (is12 && want12)) { std::fprintf(stdout, "VIOLATION %s\n", f.c_str()); ++n; } }
 		std::fprintf(stdout, n ? "=> %d violation(s)\n" : "=> ok\n", n);
